@@ -751,6 +751,7 @@ class _BuiltinBackend(_BcryptCommon):
             )
             return False
         global _builtin_bcrypt
+        from passlib.crypto._blowfish import raw_bcrypt as _builtin_bcrypt
 
         return mixin_cls._finalize_backend_mixin(name, dryrun)
 
